@@ -3504,7 +3504,7 @@ class LazyStackedTensorDict(TensorDictBase):
                 return self.reshape(-1).repeat_interleave(repeats, dim=0)
             return self.repeat_interleave(repeats, dim=0)
         dim_corrected = dim if dim >= 0 else self.ndim + dim
-        if not (dim_corrected >= 0):
+        if not (0 <= dim_corrected < self.ndim):
             raise ValueError(
                 f"dim {dim} is out of range for tensordict with shape {self.shape}."
             )
